@@ -101,6 +101,12 @@ func (m *Model) ConcreteRev(o Op) int {
 	switch {
 	case o.Rev > 0:
 		return int(cur) + o.Rev
+	case o.Rev == -2:
+		// strictly smaller than the current version (if there is room)
+		if cur <= 1 {
+			return 1
+		}
+		return int(cur) - 1
 	case o.Rev < 0:
 		if cur == 0 {
 			return 1
